@@ -353,7 +353,12 @@ def evaluate(prop, cases):
     stats = collections.Counter()
     nontrivial = set()
     for i, c in enumerate(cases):
-        ps = prop.judge(c, impl_out[i], None if model_missing else model_out[i])
+        io_ = impl_out[i]
+        if isinstance(io_, dict) and io_.get('out') in ('HANG', 'CRASH', 'HARNESS', 'NOTRUN') and not getattr(prop, 'JUDGES_HANG', False):
+            # the implementation did not come back (watchdog) or the worker failed on this case
+            ps = [{'kind': 'oracle', 'sig': 'impl-' + io_['out'], 'msg': 'implementation run ended with %s %s' % (io_['out'], io_.get('err', io_.get('stderr', '')))}]
+        else:
+            ps = prop.judge(c, io_, None if model_missing else model_out[i])
         for p in ps:
             p['case'] = c
             p['impl'] = impl_out[i]
